@@ -46,6 +46,15 @@ def pfn(d):
     """real, picklable Python function for the wire form {"args": [...], "e": FExpr}"""
     _count[0] += 1
     name = f"g{os.getpid()}_{_count[0]}"
+    if "den" in d:
+        # a QUOTIENT of two expressions (Python floats: a zero denominator raises ZeroDivisionError); outside
+        # the expression language of the Lean model, used by the strata that have no model side
+        argnames = [f"a{i}" for i in range(len(d["args"]))]
+        src = (f"def {name}({', '.join(argnames)}):\n"
+               f"    return ({fexpr.src_expr(d['e'], argnames)}) / ({fexpr.src_expr(d['den'], argnames)})\n")
+        ns = {}
+        exec(compile(src, f"<{name}>", "exec"), ns)  # noqa: S102
+        return reg_fn(ns[name], name)
     return reg_fn(fexpr.compile_fn(d["e"], len(d["args"]), name=name), name)
 
 
